@@ -315,6 +315,7 @@ type sctx struct {
 	first   bool   // the block is the first block of a list item (no indentation of its own)
 	top     bool
 	last    bool // last block of the document (at top level)
+	noDash  bool // a '-' thematic break here would be read as a setext underline
 }
 
 func (s *Ser) indent(c sctx) string {
@@ -380,6 +381,9 @@ func (s *Ser) block(b *Block, c sctx) []line {
 		}
 		var ok []string
 		for _, ch := range chars {
+			if ch == "-" && c.noDash {
+				continue
+			}
 			if !strings.Contains(c.bullets, ch) {
 				ok = append(ok, ch)
 			}
@@ -451,6 +455,11 @@ func (s *Ser) block(b *Block, c sctx) []line {
 				out = append(out, line{s: l.s, lazy: true})
 			case l.s == "":
 				out = append(out, line{s: ind + ">" + strings.Repeat(" ", s.pick("emptyquotesp", 2))})
+			// at the top level the column of '>' is known: a tab after it advances to
+			// column 4; one of its columns is the marker's optional space, the rest
+			// stands for leading structural spaces of the line
+			case c.top && !s.St.NoTabs && !s.St.Canonical && l.ind >= tabRest(len(ind)) && l.ind <= len(l.s) && s.pick("quotetab", 3) == 2:
+				out = append(out, line{s: ind + ">\t" + l.s[tabRest(len(ind)):]})
 			// (a line that keeps its quote marker is not lazy for the containers
 			// outside: without their markers it would open a new block quote)
 			case l.s[0] != ' ' && l.s[0] != '\t' && s.pick("quotenosp", 6) == 5:
@@ -523,6 +532,9 @@ func (s *Ser) blocks(bs []*Block, tight bool, c sctx) []line {
 			// indentation after a list would make the block part of its last item
 			bc.first = true
 		}
+		if i > 0 && tight {
+			bc.noDash = true
+		}
 		out = append(out, s.block(b, bc)...)
 	}
 	return out
@@ -556,3 +568,11 @@ func (s *Ser) Serialize(doc []*Block) string {
 }
 
 var _ = unicode.IsLetter
+
+// tabRest: a tab directly after a '>' that sits at column k reaches the next
+// tab stop; one of its columns is the quote marker's optional space, the rest
+// stand for this many spaces.
+func tabRest(k int) int {
+	w := 4 - (k+1)%4 // width of the tab that starts at column k+1
+	return w - 1
+}
